@@ -76,6 +76,13 @@ class expr(object):
 
         rhs_e = pop_expr()
         lhs_e = pop_expr()
+        
+        if rhs_e is self.em and lhs_e is not self.em:
+            # Python called the reflected comparison of the right-hand
+            # operand (it does when that operand's class derives from 
+            # the left one's, e.g. a list subscript): 'self' is the 
+            # expression that was created last
+            lhs_e, rhs_e = rhs_e, lhs_e
        
         e = ExprBinModel(lhs_e, op, rhs_e)
         if in_srcinfo_mode():
